@@ -1,9 +1,52 @@
-(* C02 — DHCP servers never bind one address or prefix to two clients.  Statements only. *)
+(* C02 — DHCP servers never bind one address or prefix to two clients.
+   Statements only; proofs are in Proofs/Dhcp4Proofs.v and Proofs/Dhcp6Proofs.v.  Every theorem
+   quantifies over ALL histories [ops] (message interleavings, time advances, cleanup ticks with any
+   map-iteration order) through run4 / run6 = fold_left of the Model's step from the initial state.
+
+   Guard of the DHCPv4 _partial theorems: [guard4 ops] = no relayed DISCOVER/REQUEST carries an
+   option-82 circuit-id (lookupLeaseByCircuitID is never consulted); the clauses are refuted
+   without it (known finding K02a). *)
 From Coq Require Import NArith List.
-From Verif Require Import Model.Dhcp4 Model.Dhcp6 Proofs.Dhcp4Proofs.
+From Verif Require Import Model.Dhcp4 Model.Dhcp6 Proofs.Dhcp4Proofs Proofs.Dhcp6Proofs.
 Import ListNotations.
 Local Open Scope N_scope.
 
+(* ------------------------------------------------------------------ DHCPv4 *)
+
+(* (a) an OFFER/ACK value is not leased (even expired-uncleaned) or offered to another client *)
+Theorem C02_v4_a_refuted : exists c ops o s' r mk v c',
+  step4 c (run4 c ops) o = (s', r, mk) /\ reply_val r = Some v /\ c' <> op_client o /\ holds (run4 c ops) c' v.
+Proof. exact v4_a_refuted. Qed.
+Print Assumptions C02_v4_a_refuted.
+
+Theorem C02_v4_a_partial : forall c ops o s' r mk v c',
+  guard4 (ops ++ [o]) = true ->
+  step4 c (run4 c ops) o = (s', r, mk) -> reply_val r = Some v -> c' <> op_client o ->
+  ~ holds (run4 c ops) c' v.
+Proof. exact v4_a_partial. Qed.
+Print Assumptions C02_v4_a_partial.
+
+(* (b) at most one (unexpired) binding per address *)
+Theorem C02_v4_b_refuted : exists c ops m1 m2 l1 l2,
+  alookup m1 (leases (run4 c ops)) = Some l1 /\ alookup m2 (leases (run4 c ops)) = Some l2 /\
+  l_ip l1 = l_ip l2 /\ m1 <> m2 /\ now (run4 c ops) < l_exp l1 /\ now (run4 c ops) < l_exp l2.
+Proof. exact v4_b_refuted. Qed.
+Print Assumptions C02_v4_b_refuted.
+
+Theorem C02_v4_b_partial : forall c ops m1 m2 l1 l2,
+  guard4 ops = true ->
+  alookup m1 (leases (run4 c ops)) = Some l1 -> alookup m2 (leases (run4 c ops)) = Some l2 ->
+  l_ip l1 = l_ip l2 -> m1 = m2.
+Proof. exact v4_b_partial. Qed.
+Print Assumptions C02_v4_b_partial.
+
+(* (c) every OFFER/ACK value is inside the pool and not the network, broadcast or gateway address *)
+Theorem C02_v4_c_value_usable : forall c ops o s' r mk v,
+  step4 c (run4 c ops) o = (s', r, mk) -> reply_val r = Some v -> usable4 c v = true.
+Proof. exact v4_value_usable. Qed.
+Print Assumptions C02_v4_c_value_usable.
+
+(* (d) renewing an own unexpired binding is ACKed with the same address, which stays bound *)
 Theorem C02_v4_d_renew_same_value : forall c ops m l,
   alookup (m_mac m) (leases (run4 c ops)) = Some l ->
   now (run4 c ops) < l_exp l ->
@@ -12,3 +55,115 @@ Theorem C02_v4_d_renew_same_value : forall c ops m l,
     exists l', alookup (m_mac m) (leases s') = Some l' /\ l_ip l' = l_ip l.
 Proof. exact v4_renew_same. Qed.
 Print Assumptions C02_v4_d_renew_same_value.
+
+(* (e) an address declined by its holder is never offered or acknowledged again *)
+Theorem C02_v4_e_refuted : exists c ops1 ops2 m l o s' r mk,
+  alookup (m_mac m) (leases (run4 c ops1)) = Some l /\ m_req m = Some (l_ip l) /\
+  step4 c (run4 c (ops1 ++ Decline m :: ops2)) o = (s', r, mk) /\ reply_val r = Some (l_ip l).
+Proof. exact v4_e_refuted. Qed.
+Print Assumptions C02_v4_e_refuted.
+
+Theorem C02_v4_e_partial : forall c ops1 ops2 m l o s' r mk,
+  guard4 (ops1 ++ Decline m :: ops2 ++ [o]) = true ->
+  alookup (m_mac m) (leases (run4 c ops1)) = Some l -> m_req m = Some (l_ip l) ->
+  step4 c (run4 c (ops1 ++ Decline m :: ops2)) o = (s', r, mk) ->
+  reply_val r <> Some (l_ip l).
+Proof. exact v4_e_partial. Qed.
+Print Assumptions C02_v4_e_partial.
+
+(* (f) a released address is back on the free list (or was declined); after a cleanup tick no
+   expired lease is left in the table *)
+Theorem C02_v4_f_release_partial : forall c ops m l,
+  guard4 ops = true -> alookup (m_mac m) (leases (run4 c ops)) = Some l ->
+  let s' := step4s c (run4 c ops) (Release m) in
+  alookup (m_mac m) (leases s') = None /\ (In (l_ip l) (avail s') \/ In (l_ip l) (unavail s')).
+Proof. exact v4_f_release_partial. Qed.
+Print Assumptions C02_v4_f_release_partial.
+
+Theorem C02_v4_f_expiry_cleanup : forall c ops ord m l,
+  alookup m (leases (step4s c (run4 c ops) (Cleanup ord))) = Some l -> now (run4 c ops) < l_exp l.
+Proof. exact v4_f_expiry. Qed.
+Print Assumptions C02_v4_f_expiry_cleanup.
+
+(* non-vacuity: a guarded history with relay, option 82, a decline, expiry and a cleanup tick, and a
+   reachable state in which a client holds a lease *)
+Example C02_v4_guard_satisfiable :
+  guard4 [Discover (w_m 1 None false 0); Request (w_m 1 (Some 167773953) false 1); Discover (w_m 2 None true 0);
+          Decline (w_m 1 (Some 167773953) false 0); Advance 101; Cleanup []] = true /\
+  exists l, alookup 1 (leases (run4 w_cfg [Discover (w_m 1 None false 0); Request (w_m 1 (Some 167773953) false 1)])) = Some l
+            /\ l_ip l = 167773953.
+Proof. exact v4_guard_satisfiable. Qed.
+
+(* ------------------------------------------------------------------ DHCPv6 *)
+
+(* configuration side condition: the delegated-prefix step is positive (always: 2^(128-dlen)) *)
+
+(* (a)+(c) a value in an Advertise/Reply is one of the pool's addresses / prefixes, and no other
+   client holds it (lease entry or outstanding Advertise) *)
+Theorem C02_v6_ac_address : forall c ops o s' r mk v d',
+  wf6 c -> step6 c (run6 c ops) o = (s', r, mk) -> na_of r = IaVal v ->
+  In v (init_aavail c) /\ (d' <> client6 o -> ~ holds6a (run6 c ops) d' v).
+Proof. exact v6_a_addr. Qed.
+Print Assumptions C02_v6_ac_address.
+
+Theorem C02_v6_ac_prefix : forall c ops o s' r mk v d',
+  wf6 c -> step6 c (run6 c ops) o = (s', r, mk) -> pd_of r = IaVal v ->
+  In v (init_pavail c) /\ (d' <> client6 o -> ~ holds6p (run6 c ops) d' v).
+Proof. exact v6_a_pfx. Qed.
+Print Assumptions C02_v6_ac_prefix.
+
+(* (b) no two lease-table entries share an address or a prefix *)
+Theorem C02_v6_b_one_binding : forall c ops d1 d2 l1 l2,
+  wf6 c -> alookup d1 (leases6 (run6 c ops)) = Some l1 -> alookup d2 (leases6 (run6 c ops)) = Some l2 ->
+  (forall a, l6_addr l1 = Some a -> l6_addr l2 = Some a -> d1 = d2) /\
+  (forall p, l6_pfx l1 = Some p -> l6_pfx l2 = Some p -> d1 = d2).
+Proof. exact v6_b. Qed.
+Print Assumptions C02_v6_b_one_binding.
+
+(* (d) Renew (and Rebind, which is the same transition) of a held address returns the same address *)
+Theorem C02_v6_d_renew_same_value : forall c ops d l a pd,
+  wf6 c -> alookup d (leases6 (run6 c ops)) = Some l -> l6_addr l = Some a ->
+  step6 c (run6 c ops) (Rebind d true pd) = step6 c (run6 c ops) (Renew d true pd) /\
+  exists s' rpd mk, step6 c (run6 c ops) (Renew d true pd) = (s', R6Reply (IaVal a) rpd false, mk).
+Proof. exact v6_d. Qed.
+Print Assumptions C02_v6_d_renew_same_value.
+
+(* (f) release: the released address is back on the free list and the binding is gone *)
+Theorem C02_v6_f_release : forall c ops d l a,
+  wf6 c -> alookup d (leases6 (run6 c ops)) = Some l -> l6_addr l = Some a ->
+  In a (aavail (step6s c (run6 c ops) (Release6 d))) /\ alookup d (leases6 (step6s c (run6 c ops) (Release6 d))) = None.
+Proof. exact v6_f_release. Qed.
+Print Assumptions C02_v6_f_release.
+
+(* (e) Decline is Release: the declined address is handed to the next client *)
+Theorem C02_v6_e_refuted : exists c ops d l a o s' r mk,
+  alookup d (leases6 (run6 c ops)) = Some l /\ l6_addr l = Some a /\
+  step6 c (run6 c (ops ++ [Decline6 d])) o = (s', r, mk) /\ na_of r = IaVal a.
+Proof. exact v6_e_refuted. Qed.
+Print Assumptions C02_v6_e_refuted.
+
+(* (f) expiry: a request is refused while a binding whose valid lifetime has run out holds the address *)
+Theorem C02_v6_f_expiry_refuted : exists c ops o s' r mk,
+  step6 c (run6 c ops) o = (s', r, mk) /\ na_of r = IaErr 2 /\ expired_holder (run6 c ops) false = true.
+Proof. exact v6_f_expiry_refuted. Qed.
+Print Assumptions C02_v6_f_expiry_refuted.
+
+Theorem C02_v6_f_expiry_partial : forall c ops pd,
+  wf6 c -> now6 (run6 c ops) <= c_valid c -> expired_holder (run6 c ops) pd = false.
+Proof. exact v6_f_expiry_partial. Qed.
+Print Assumptions C02_v6_f_expiry_partial.
+
+(* (e) partial: the declined address goes to the END of the free list; while another free address
+   exists the next client is given that one, not the declined one *)
+Theorem C02_v6_e_partial : forall c ops d l a d2 x tl,
+  wf6 c -> alookup d (leases6 (run6 c ops)) = Some l -> l6_addr l = Some a ->
+  aavail (run6 c ops) = x :: tl -> d2 <> d -> alookup d2 (aalloc (run6 c ops)) = None ->
+  exists s' rpd mk, step6 c (step6s c (run6 c ops) (Decline6 d)) (Request6 d2 true true false) = (s', R6Reply (IaVal x) rpd false, mk) /\ x <> a.
+Proof. exact v6_e_partial. Qed.
+Print Assumptions C02_v6_e_partial.
+
+Example C02_v6_hyps_satisfiable :
+  wf6 w6 /\ (exists l, alookup 1 (leases6 (run6 w6 [Solicit 1 false true true; Request6 1 true true true; Advance6 50])) = Some l
+                       /\ l6_addr l = Some (a_base w6 + 1)) /\
+  now6 (run6 w6 [Solicit 1 false true true; Request6 1 true true true; Advance6 50]) <= c_valid w6.
+Proof. exact v6_hyps_satisfiable. Qed.
